@@ -62,3 +62,35 @@ Proof.
   - left. split; [apply filter_In; auto|]. intro H. apply filter_In in H as [_ H]. rewrite M in H. discriminate.
   - right. split; [|apply filter_In; rewrite M; auto]. intro H. apply filter_In in H as [_ H]. congruence.
 Qed.
+
+Lemma reorder_wf a ks strict r :
+  wf a -> NoDup (given ks) -> reorder_fields a ks strict = Ok r -> wf r.
+Proof.
+  intros Hw Hk E. pose proof Hw as (_ & Hn & Hne & _). rewrite (reorder_char a ks strict Hn Hk) in E.
+  destruct (reorder_rejects_b a (given ks) strict); [discriminate|].
+  inversion E; subst r; clear E.
+  assert (Hin : forall f, In f (reorder_fields_spec a (given ks)) -> In f (fields a)).
+  { intros f Hf. unfold reorder_fields_spec in Hf. apply in_app_or in Hf as [Hf|Hf].
+    - apply in_flat_map in Hf as (n & _ & Hf). now apply pick_In in Hf as [Hf _].
+    - now apply filter_In in Hf as [Hf _]. }
+  apply (wf_sub a); cbn [shape fields]; try reflexivity; try assumption.
+  - (* at least one field: every field of a is in the result *)
+    destruct (fields a) as [|f0 t] eqn:Ef; [congruence|].
+    intro E0.
+    assert (Hlen : length (map fname (reorder_fields_spec a (given ks))) = 0%nat) by (rewrite E0; reflexivity).
+    rewrite reorder_names in Hlen. rewrite app_length in Hlen.
+    assert (H0 : In (fname f0) (names a)) by (unfold names; rewrite Ef; now left).
+    destruct (memb (fname f0) (given ks)) eqn:M.
+    + assert (Hi : In (fname f0) (filter (fun n => memb n (names a)) (given ks))).
+      { apply filter_In. split; [now apply memb_In|now apply memb_In]. }
+      destruct (filter (fun n => memb n (names a)) (given ks)); [contradiction|]. cbn [length] in Hlen. lia.
+    + assert (Hi : In (fname f0) (filter (fun n => negb (memb n (given ks))) (names a))).
+      { apply filter_In. split; [assumption|now rewrite M]. }
+      destruct (filter (fun n => negb (memb n (given ks))) (names a)); [contradiction|].
+      cbn [length] in Hlen. lia.
+  - unfold names. cbn [fields]. rewrite reorder_names. apply NoDup_app_intro.
+    + now apply NoDup_filter'.
+    + now apply NoDup_filter'.
+    + intros n H1 H2. apply filter_In in H1 as [H1 _]. apply filter_In in H2 as [_ H2].
+      apply memb_In in H1. rewrite H1 in H2. discriminate.
+Qed.
